@@ -2,6 +2,7 @@ import KyupyVerif.Proofs.WaveExact
 import KyupyVerif.Proofs.WaveMemCirc
 import KyupyVerif.Proofs.WaveMemDemo
 import KyupyVerif.Proofs.Activity
+import KyupyVerif.Proofs.ActivityCirc
 /-! # C13 — capture results and switching-activity counts faithfully summarise waveforms
 
 Models (M): `Wave.captureWv` = `wave_capture_cpu` / `wave_capture_gpu` with `sd = 0`; `Wave.waveCounts` = the
@@ -11,7 +12,7 @@ accumulation itself is RUN by the driver (`accum`: `Wave.accumulate` on the zero
 accumulation-control columns 6..8 of `ops`, once per propagation) and compared with the real `abuf` — the former Python
 re-implementation of the sum is gone. `abuf_sum` / `abuf_order_independent` are statements about ANY contribution list; the statement
 "after `c_prop` accumulator `a` of lane `x` grew by Σ over the rows with `aLoc = a` of `aWr·nrise + aWf·nfall` of the waveform the row
-produced" is the theorem `activity_all_programs` (last section; over `WaveIO.cpuCProp` / `gpuCProp` with `accAdd`, for EVERY op table,
+produced" is the theorem `activity_all_programs` (last section; `activity_all_circuits`: on the real memory layout in terms of signal-level waveforms; over `WaveIO.cpuCProp` / `gpuCProp` with `accAdd`, for EVERY op table,
 level table, lane count, block shape and evaluator function — in particular the tables of every circuit), with
 `activity_counts_are_transitions` for the evaluator `evWave` built from the waveform model.
 
@@ -223,6 +224,43 @@ theorem activity_counts_are_transitions (g : WCfg) (loc : Nat → Int) (o : OpRo
     (evWave (fun _ => g) loc o sim c).2 =
       countTrans false (readWave (rdCells (evWave (fun _ => g) loc o sim c).1 (loc o.out) (g.cap o.out))).ents :=
   evWave_counts_transitions g loc o sim c hd hc hx
+
+open KV.WaveIO KV.MapSound in
+/-- **accumulated activity on the real memory layout, in terms of signal-level waveforms** — `p` an accepted map record (for the
+    tables of the `SimOps` model of EVERY well-formed netlist: `C08.simops_map_accepted`) with `c_caps_min ≥ 4`, delays ≥ 0, the op
+    table lists the rows of `p` with any accumulation control, contiguous level boundaries, either code path, any block shape, lane
+    `k < sims` whose column holds a well-formed stimulus: accumulator `a` ends at its start value plus the sum over the rows
+    addressed to `a` of `a_wr·nrise + a_wf·nfall`, where `(nrise, nfall)` are the numbers of rising / falling transitions of the
+    waveform the row produces in SIGNAL-LEVEL execution (`sigTrace`: no memory, no regions, operands = the source signals) —
+    although regions are shared by stripped branches and re-used by later signals -/
+theorem activity_all_circuits (p : MapIn) (hc : p.check = none) (h4 : 4 ≤ p.capsMin) (delay : Nat → Bool → Bool → Int)
+    (hd : ∀ l a b, 0 ≤ delay l a b) (ops : List AOp) (hops : ops.map (·.op) = p.ops) (bs : List Nat)
+    (hbs : List.Pairwise (· ≤ ·) (0 :: bs)) (hlast : (bs.getLast?).getD 0 = ops.length)
+    (sims bx by_ : Nat) (hbx : 0 < bx) (hby : 0 < by_) (S : Nat → LaneSt) (k : Nat) (hk : k < sims)
+    (env0 : Nat → Wv) (henv : ∀ x, (env0 x).ok) (h0 : Stimulus p (S k).c env0) (a : Nat) :
+    (gpuCProp (evWave (fun _ => wcfg p delay) p.loc) ops (WaveIO.levelPairs 0 bs) sims bx by_ S k).ab (a : Int) =
+      (S k).ab (a : Int) + totalFor a
+        (List.zipWith (fun (o : AOp) (e : OpRow × Nat × Nat) => contribOf (o, e.2.1, e.2.2)) ops
+          (sigTrace p (waveRow (wcfg p delay) p)
+            (fun o args => countTrans false (waveRow (wcfg p delay) p o args).ents) p.ops env0)) := by
+  rw [activity_all_programs_gpu _ ops _ sims bx by_ hbx hby S k hk a, sched_contiguous ops bs hbs hlast,
+    contribs_zip _ ops (laneTrace_rows _ k ops (S k).c),
+    laneTrace_eq_sigTrace p hc h4 delay hd k ops hops (S k).c env0 henv h0, sigTrace_counts p hc h4 delay hd env0 henv]
+
+open KV.WaveIO KV.MapSound in
+/-- non-vacuity on `Wave.memDemo` (strip + reuse: line 5 re-uses the region of line 0; `a` rises at 5, `b` constant 1): every row
+    feeds accumulator 0 with weights `(2, 3)`; signal-level transitions per row `(1,0) (0,0) (1,0) (0,1)` — lane 0 ends at 7 -/
+example :
+    let ops : List AOp := memDemo.ops.map fun o => ⟨o, 0, 2, 3⟩
+    let S : Nat → LaneSt := fun _ => ⟨memDemoM0, fun _ => 0⟩
+    (gpuCProp (evWave (fun _ => wcfg memDemo memDemoDelay) memDemo.loc) ops (WaveIO.levelPairs 0 [2, 3, 4]) 2 1 1 S 0).ab 0 = 7 := by
+  intro ops S
+  have h := activity_all_circuits memDemo memDemo_check (by decide) memDemoDelay memDemoDelay_nonneg ops
+    (by simp [ops, List.map_map, Function.comp_def]) [2, 3, 4] (by decide) (by decide +kernel) 2 1 1 (by decide) (by decide) S 0 (by decide)
+    (inputEnv memDemo memDemoM0) (inputEnv_ok memDemo memDemoM0 memDemo_inputs) (stimulus_inputEnv memDemo memDemoM0) 0
+  rw [show ((0 : Nat) : Int) = 0 from rfl] at h
+  rw [h]
+  decide +kernel
 
 open KV.WaveIO in
 /-- non-vacuity: two levels, three rows (accumulators 1, none, 1; weights (2,3), (5,7), (1,−1)), an evaluator returning
